@@ -6,17 +6,17 @@ HOOK_COMMITS = ["096ae72", "f3cf827"]
 
 checks = {
  "C01": ("simmon", "exploration", "3 C01", "runtime monitoring: water-balance oracle on every sub-step and day of generated runs (in-process probes)",
-   "Holds on every sub-step and day of the generated runs (residual <= 1e-9 cm); sampled inputs, not all inputs. Closure is checked at sub-step level, day level (with the daily flux, so lost sub-steps show), between days, and against the reported counters."),
+   "Holds on every sub-step and day of the generated runs (residual <= 1e-9 cm); sampled inputs, not all inputs. Closure is checked at sub-step level, day level (with the daily flux, so lost sub-steps show), between days, and against the reported counters; a daily groundwater update may rewrite the water below the table only when the groundwater input gives another level than the day before (plateaus of a series, constant levels: nothing may touch the water); groundwater table at the surface (0 dm) included."),
  "C02": ("simmon", "exploration", "3 C02", "runtime monitoring: N-balance oracle with clamp accounting on every N sub-step and day of generated runs",
-   "Holds on every N sub-step and day of the generated runs (residual minus clamp-created N <= tolerance), incl. deposition/irrigation input and the instability flag; the real transport routine is additionally run on copies of the live state with tillage-like mixed top-soil N and demand above the layers' content (uptake limit engaged); 12 % of the cases with automatic management; sampled inputs."),
+   "Holds on every N sub-step and day of the generated runs (residual minus clamp-created N <= tolerance), incl. deposition/irrigation input and the instability flag; the real transport routine is additionally run on copies of the live state with tillage-like mixed top-soil N and demand above the layers' content (uptake limit engaged); 12 % of the cases with automatic management, half of the automatic-harvest cases rewritten after a probe run so that a tillage postponed by the standing crop meets the next scheduled one; permanent crops after annual crops, the crop before them mostly a legume taken off green; first crops with the N-content functions 7-9 (project-supplied parameter file); sampled inputs."),
  "C06": ("simmon", "exploration", "3 C06", "runtime monitoring: bound and finiteness assertions on the live state every day + NaN scan of result files",
    "Every layer every day within [WP/3, FC + capillary increment], below 1 and not above the pore volume the layer had after input; every float of the run state finite; the real water routine is additionally run for whole days on copies of the live state with sub-step counts hostile to floating point (49, 93, 98 ...) and layers filled to pore volume; injected air-dry and nearly full states; sampled inputs."),
  "C07": ("simmon", "exploration", "3 C07", "runtime monitoring: pool/counter bookkeeping around every N-routine call, once-per-day crediting per sub-step, kernel calls of the real mineralisation routine",
-   "Non-negativity, pool+counter conservation around mineralisation/tillage, fertiliser organic inputs equal the applied amounts, uptake/fixation credited only on sub-step 1; sampled inputs."),
+   "Non-negativity, pool+counter conservation around mineralisation/tillage, fertiliser organic inputs equal the applied amounts, uptake/fixation credited only on sub-step 1 and never beyond the day's gain of the fixation counter (also for a grass ley that follows a legume taken off green); sampled inputs."),
  "C08": ("simmon", "exploration", "3 C08", "runtime monitoring: ET ordering / cap / root-zone assertions at the ET probe every day",
-   "0 <= ETa+T <= ETp <= cap, uptake only within min(root depth, groundwater) and <= available water, stress ratios in [0,1], on every day of the generated runs over the five ET methods."),
+   "0 <= ETa+T <= ETp <= cap, uptake only within min(root depth, groundwater) and <= available water, stress ratios in [0,1], on every day of the generated runs over the five ET methods; polar latitudes, series without measured radiation, groundwater table at the surface (0 dm)."),
  "C09": ("simmon", "exploration", "3 C09", "runtime monitoring: crop state assertions every crop day, stage-order checker at every harvest, cross-check with the crop result file",
-   "All shipped annual main-crop parameter sets (classic + YAML) exercised; state valid and stage index monotone on every crop day observed."),
+   "All shipped annual main-crop parameter sets (classic + YAML) exercised; state valid and stage index monotone on every crop day observed; 30 % of the cases driven by sunshine duration instead of radiation, with sunshine gaps of several days."),
  "C15": ("simmon", "exploration", "3 C15", "runtime monitoring: parameter-ordering assertions after input and twice a day, history monitor keyed by groundwater level",
    "Ordering 0<WP<FC<=PS<1 and WP<WRED<FC hold for every layer/day of the generated runs over table / explicit / PTF routes; same level => same parameters (one open finding for the input set-up)."),
  "C19": ("simmon", "exploration", "3 C19", "runtime monitoring: envelope assertion on every layer temperature every day + diffusion-number invariant",
@@ -24,25 +24,25 @@ checks = {
  "C12": ("fnmon", "exploration", "3 C12", "runtime monitoring: exhaustive execution of the real date conversion functions against a calendar oracle (Go time package)",
    "Exhaustive over the stated date range: all 72,684 dates x 4 formats x 4 separator variants x admissible century splits (each text also with blanks / tabs around it), text->number->text identity, consecutive numbering, day-of-year, leap years, inverse function."),
  "C17": ("fnmon", "exploration", "3 C17", "runtime monitoring: the real calcHermesBatch and hermes2go binaries executed for every (lines, nodes, encoding) triple up to the bound; executed log ids recorded and checked for exactly-once",
-   "Exhaustive to the bound (quick L<=24,K<=26; thorough L<=60,K<=64; nine file shapes: LF / CRLF, blank lines, no final newline, one line of 5 kB / 40 kB, line ends on 32 KiB ... 256 KiB block boundaries): ranges contiguous/disjoint/covering, count equals -size, every range executed by hermes2go -lines, each line id executed exactly once."),
+   "Exhaustive to the bound (quick L<=24,K<=26; thorough L<=60,K<=64; nine file shapes: LF / CRLF, blank lines, no final newline, one line of 5 kB / 40 kB, line ends on 32 KiB ... 256 KiB block boundaries; plus four files of 4 MiB (thorough 16 MiB) with line ends on / just before every power-of-two boundary from 4 KiB up, their 3x multiples and every whole MiB, partitioned for ten node counts, the ranges around the boundary lines executed): ranges contiguous/disjoint/covering, count equals -size, every range executed by hermes2go -lines, each line id executed exactly once."),
  "C20": ("simmon", "exploration", "3 C20", "runtime monitoring: groundwater level read at the probe on every simulated day compared with an independent interpolation / sinusoid; dense calls of the public interpolation function",
-   "Level of every simulated day equals series value / linear interpolation / nearest end value, or the configured sinusoid within [min,max]; series entries aligned with the edges of the simulated period; function-level: nodes, neighbours of nodes, outside span, random interior days of generated series, queried in random order."),
+   "Level of every simulated day equals series value / linear interpolation / nearest end value, or the configured sinusoid within [min,max]; the level lies between its two neighbouring series values exactly (no tolerance: a plateau is returned as it is); series selected by gwId= among decoy rows; levels of 0 dm; series entries aligned with the edges of the simulated period; function-level: nodes, neighbours of nodes, outside span, random interior days of generated series, queried in random order."),
  "C05": ("simmon", "exploration", "3 C05", "runtime monitoring: the result files written by real generated runs are parsed and compared record by record with an independent calendar / rotation oracle",
    "Daily file: exactly the expected days (start..end, interval k, leap days) in order; yearly file: one record per annual output date inside the period; crop file: one record per harvested rotation entry in order; every record has the configured number of fields; both styles; random output configurations (date column anywhere, leading empty text fields, separators, alignments, NA values, 0-2 header lines, calendar-edge annual dates). One open finding (end-date extension)."),
  "C14": ("simmon", "exploration", "3 C14", "runtime monitoring: probe-and-abort read-back of the effective configuration from the real reader for generated file/line/default combinations, plus full runs with decoy file values",
-   "Every scalar key (numeric, text, on/off, enum) in random subsets of file and line, unknown keys, missing file, two argument orders per case: effective value = line, else file, else default; full runs confirm the line value in run state and result files."),
+   "Every scalar key (numeric, text, on/off, enum) in random subsets of file and line, numbers on the line also zero-padded / signed / in exponent form / with bare decimal point, unknown keys, missing file, two argument orders per case: effective value = line, else file, else default; full runs confirm the line value in run state and result files."),
  "C04": ("simmon", "exploration", "3 C04", "runtime monitoring: on every simulated day the weather arrays the model uses are compared at the probe with the generator's truth table for that calendar date; fault cases (incomplete weather) must end with an error",
-   "Three layouts, leap years, year changes, series starting early, sentinels incl. year boundaries, wind floor as consumed by Penman-Monteith, monthly precipitation correction; incomplete inputs (ends early, gap, missing year, starts late): ten open findings where the readers' errors are dropped, one open finding for a sentinel at the edge of the loaded year range."),
+   "Three layouts, leap years, year changes, series starting early, sentinels incl. year boundaries, sunshine gaps of two or three days (the marker itself must never be consumed), station-line altitude / CO2, wind floor as consumed by Penman-Monteith, monthly precipitation correction; incomplete inputs (ends early, gap, missing year, starts late): ten open findings where the readers' errors are dropped, one open finding for a sentinel at the edge of the loaded year range."),
  "C10": ("simmon", "exploration", "3 C10", "runtime monitoring: exactly-once / ordering checker over the management event log of real runs against a reference reader of the generated schedule, plus state-jump assertions with amounts from the fertiliser table",
    "Fertilisation, tillage, irrigation, sowing, harvest: each scheduled action inside the period appears exactly once, in order, on its due day; pre-start actions ignored; irrigation water and N enter that day's infiltration / top layer; fertiliser pools change by the table amounts; 20% of cases with automatic management switches."),
  "C16": ("simmon", "exploration", "3 C16", "runtime monitoring: sowing / harvest days from the management event log and every automatic irrigation / N application observed at the probes are checked against the generated rotation and automatic-management table",
    "Rotation order, crop code and harvest year of every crop record; fixed dates hit exactly; automatic sowing inside its window and after the previous harvest, harvest not after the latest date, irrigation only in the stage window and not above the daily maximum, automatic N >= 0; all 16 switch combinations; permanent crops followed by themselves; every fourth case rewritten around the harvest day observed in a probe run (fixed sowing right after a triggered harvest)."),
  "C13": ("pairmon", "exploration", "3 C13", "runtime monitoring: differential paired runs of the real model on one generated project written in two encodings; result files compared byte for byte",
-   "Eight pair kinds (crop classic/YAML/converter-binary YAML, soil, rotation, measurement txt/CSV, weather layouts 0/1/2, date formats); every shipped annual main crop file covered; 12 significant digits of daily state compared."),
+   "Eight pair kinds (crop classic/YAML/converter-binary YAML, soil, rotation, measurement txt/CSV, weather layouts 0/1/2 with a station line whose altitude differs from the configured one (also below sea level) and may carry CO2, date formats); every shipped annual main crop file covered; 12 significant digits of daily state compared."),
  "C18": ("pairmon", "exploration", "3 C18", "runtime monitoring: differential paired runs of the real model, override on the batch line vs the same edit in a copied parameter folder; result files compared byte for byte",
-   "Every overridable base / per-stage / per-organ parameter x every shipped annual main crop file; valid values: override == file edit; out-of-range value or index: run == run without overrides; an override naming a crop file that no crop of the run reads (classic and YAML names): run == run without overrides."),
+   "Every overridable base / per-stage / per-organ parameter x every shipped annual main crop file; 35 % of the pairs are 5-6 year runs in which other crops (preferably with more development stages) are grown before the crop of the overridden file; valid values: override == file edit; out-of-range value or index: run == run without overrides; an override naming a crop file that no crop of the run reads (classic and YAML names): run == run without overrides."),
  "C03": ("batchmon", "exploration", "3 C03", "runtime monitoring: Go race detector + event-trace checker + result-hash comparison over the real hermes2go binary under randomised schedules (concurrency, line order, GOMAXPROCS, injected delays); porcupine linearizability check of recorded file-pool histories",
-   "Every line's result files equal its solo reference under every explored schedule (batches contain repeated lines, exact duplicates, lines that log while valid, custom crop codes, a numerically unstable project and configuration variants of one project), repeated solo runs reproduce, exactly one run_start/run_end per line in the trace, no race report, file-pool histories (files from a few bytes to 4 MiB, first-load storms) linearizable against a load-once model; the interleavings seen (max simultaneous runs, distinct completion orders) are reported."),
+   "Every line's result files equal its solo reference under every explored schedule (batches contain repeated lines, exact duplicates, lines that log while valid, custom crop codes, a numerically unstable project, a project whose soil uses a texture class that only its own parameter folder defines, and configuration variants of one project), repeated solo runs reproduce, exactly one run_start/run_end per line in the trace, no race report, file-pool histories (files from a few bytes to 4 MiB, first-load storms) linearizable against a load-once model; the interleavings seen (max simultaneous runs, distinct completion orders) are reported."),
  "C11": ("batchmon", "fault_enumeration", "3 C11", "runtime monitoring: fault enumeration (reported-error class x position x concurrency) over the real hermes2go binary with race detector, trace checker and result-hash comparison; bounded-progress monitor on logical steps for termination",
    "Seven reported-error classes, each in several shapes (other horizon, window boundaries incl. the harvest day, single-day / late gaps, ids extending or shortening an existing id), each fail only their own line with the expected message, all other lines equal their solo results, the summary lists exactly the failed ids; runs incl. fertiliser prediction at latitudes -70..80 stay within the logical step bounds; a crash on a valid generated input is reported."),
 }
